@@ -83,3 +83,10 @@ func Dec(codec string, enc []byte) ([]byte, bool) { panic("vf: engine intrinsic"
 // TLSModel sets the outcome of TLS handshakes and the negotiated protocol in
 // the engine's crypto/tls model (no effect natively).
 func TLSModel(handshakeOK bool, negotiatedProtocol string) { panic("vf: engine intrinsic") }
+
+// TLSDialTarget registers the connection that the next tls.Dial returns in the engine.
+func TLSDialTarget(conn any) { panic("vf: engine intrinsic") }
+
+// FixedSchedule(true) makes the scheduler resolve its choices deterministically
+// (first runnable goroutine) until FixedSchedule(false).
+func FixedSchedule(on bool) { panic("vf: engine intrinsic") }
